@@ -305,4 +305,124 @@ def RespBody.frames {ρ} (innerFrames : ρ → Body) : RespBody ρ → Body
   | .empty => { chunks := [], trailers := none }
   | .wrap b => innerFrames b
 
+/-! ### client side: `client/grpc.rs` (`GrpcConfig::prepare_request`, `Grpc::create_response`) and
+`Status::from_header_map` — the path a generated client with `with_interceptor` takes:
+`prepare_request` (sanitising) → `InterceptedService` (not sanitising) → transport, and back. -/
+
+/-- `prepare_request` with no compression configured.  The origin is given as its
+`scheme://authority` prefix, the *path* of its path-and-query (`""` when absent) and whether it
+has a query (the code compares the whole path-and-query with `"/"`, so `/?q` counts as a base
+path and yields `//…`; the origin's query itself is dropped). -/
+def prepareRequest {β} (originPrefix originPath : Bytes) (originHasQuery : Bool) (path : Bytes)
+    (t : TRequest β) : Request β :=
+  let pnq := if originPath.isEmpty || (originPath == str "/" && !originHasQuery) then path
+             else originPath ++ path
+  let r := intoHttp t (originPrefix ++ pnq) (str "POST") 2 .yes
+  let h := insert (str "te") (str "trailers", false) r.headers
+  let h := insert nameContentType (grpcContentType, false) h
+  { r with headers := h }
+
+/-- `Code::from_bytes` (then `as i32`), arm by arm -/
+def codeFromBytes (b : Bytes) : Nat :=
+  if b == str "0" then 0 else if b == str "1" then 1 else if b == str "2" then 2
+  else if b == str "3" then 3 else if b == str "4" then 4 else if b == str "5" then 5
+  else if b == str "6" then 6 else if b == str "7" then 7 else if b == str "8" then 8
+  else if b == str "9" then 9 else if b == str "10" then 10 else if b == str "11" then 11
+  else if b == str "12" then 12 else if b == str "13" then 13 else if b == str "14" then 14
+  else if b == str "15" then 15 else if b == str "16" then 16 else 2
+
+def hexDigitVal (c : UInt8) : Option Nat :=
+  let v := c.toNat
+  if 48 ≤ v ∧ v ≤ 57 then some (v - 48)
+  else if 65 ≤ v ∧ v ≤ 70 then some (v - 55)
+  else if 97 ≤ v ∧ v ≤ 102 then some (v - 87)
+  else none
+
+def byteOfNibbles (x y : Nat) : UInt8 := UInt8.ofNat (x * 16 + y)
+
+/-- `percent_encoding::percent_decode`: `%XX` with two hex digits is decoded, any other byte
+(a lone `%` included) is kept. -/
+def percentDecodeLenient : Bytes → Bytes
+  | [] => []
+  | c :: rest =>
+    if c = 37 then
+      match rest with
+      | a :: b :: rest' =>
+        match hexDigitVal a, hexDigitVal b with
+        | some x, some y => byteOfNibbles x y :: percentDecodeLenient rest'
+        | _, _ => c :: percentDecodeLenient (a :: b :: rest')
+      | [a] => [c, a]
+      | [] => [c]
+    else c :: percentDecodeLenient rest
+
+inductive FromHeaderMap
+  | absent
+  /-- the `expect` on the details base64 (as found) / the error-status branch (with C04's fix):
+  not modelled further -/
+  | badDetails
+  /-- the message is not UTF-8: the text of the replacement status is not modelled -/
+  | badMessage
+  | status (st : GStatus)
+deriving Repr
+
+/-- the `grpc-message` part of `from_header_map`: first value, percent-decoded, must be UTF-8 -/
+def messageFromHeaders (utf8 : Bytes → Bool) (h : Hdrs) : Option Bytes :=
+  match (getAll nameGrpcMessage h).head? with
+  | some v => if utf8 (percentDecodeLenient v.1) then some (percentDecodeLenient v.1) else none
+  | none => some []
+
+/-- the `grpc-status-details-bin` part: first value, base64 (`STANDARD` engine, padding optional) -/
+def detailsFromHeaders (h : Hdrs) : Option Bytes :=
+  match (getAll nameGrpcDetails h).head? with
+  | some v => B64.decode v.1
+  | none => some []
+
+/-- `Status::from_header_map`; `utf8` stands for `str::from_utf8(..).is_ok()`. -/
+def statusFromHeaderMap (utf8 : Bytes → Bool) (h : Hdrs) : FromHeaderMap :=
+  match (getAll nameGrpcStatus h).head? with
+  | none => .absent
+  | some cv =>
+    let other := remove nameGrpcDetails (remove nameGrpcMessage (remove nameGrpcStatus h))
+    match detailsFromHeaders h, messageFromHeaders utf8 h with
+    | none, _ => .badDetails
+    | some _, none => .badMessage
+    | some d, some m =>
+      .status { code := codeFromBytes cv.1, message := m, details := d, metadata := metadataFromHeaders other }
+
+/-- What `Grpc::server_streaming` returns (before the stream is polled). -/
+inductive ClientResult
+  /-- `Ok(Response)`: metadata and extensions of the response -/
+  | ok (md : Hdrs) (ext : Ext)
+  | err (st : GStatus)
+  /-- the transport service failed (`Status::from_error_generic`): not modelled further -/
+  | transport
+  | panic
+  /-- outside the modelled fragment (compressed response, no `grpc-status` in the headers, …) -/
+  | unmodelled
+deriving Repr, DecidableEq
+
+/-- `Grpc::create_response` for a response whose headers carry the status (trailers-only), no
+compression enabled on the client. -/
+def createResponse (utf8 : Bytes → Bool) (headers : Hdrs) (ext : Ext) : ClientResult :=
+  match (getAll (str "grpc-encoding") headers).head? with
+  | some v => if v.1 == str "identity" then go else .unmodelled
+  | none => go
+where
+  go : ClientResult :=
+    match statusFromHeaderMap utf8 headers with
+    | .absent => .unmodelled
+    | .badDetails => .unmodelled
+    | .badMessage => .unmodelled
+    | .status st => if st.code != 0 then .err st else .ok (metadataFromHeaders headers) ext
+
+/-- One client call through `Grpc<InterceptedService<T, F>>::server_streaming`. -/
+def clientCall {σ ι β ρ ε} (utf8 : Bytes → Bool) (f : Icpt σ) (inner : Inner ι β ρ ε) (s : σ) (i : ι)
+    (originPrefix originPath : Bytes) (originHasQuery : Bool) (path : Bytes) (t : TRequest β) :
+    CallResult σ ι β ρ ε × ClientResult :=
+  let c := call f inner s i (prepareRequest originPrefix originPath originHasQuery path t)
+  (c, match c.out with
+      | .response r => createResponse utf8 r.headers r.ext
+      | .error _ => .transport
+      | .panic => .panic)
+
 end Interceptor
